@@ -630,6 +630,8 @@ pub fn run_history(doc: &Value, root: &Path, out: &mut dyn Write, run_id: u64) -
                     ev.insert("ev".into(), json!(op[0]));
                 }
                 ev.insert("err".into(), json!(format!("panic: {msg}")));
+                // the tree's own assertion that a level is sorted and disjoint (compute_bounds / level lookups)
+                ev.insert("errclass".into(), json!(if msg.contains("this_level.ssts[") { "level-order-assert" } else { "other" }));
                 aborted = Some(format!("panic: {msg}"));
             }
         }
